@@ -80,10 +80,25 @@ func vPassword(r *vRng, known [][]byte) []byte {
 	return p
 }
 
+type vHistOpts struct {
+	prop      string
+	plant     bool // start from records written by the harness's independent writer
+	manySets  bool
+	emitExtra func(h *vHist, c *vCase)
+}
+
 func runHistC01(em *vEmitter, r *vRng, idx int) {
-	root := vScratch("c01")
+	runRandomHist(em, r, idx, vHistOpts{prop: "C01", plant: idx%3 == 0})
+}
+
+func runRandomHist(em *vEmitter, r *vRng, idx int, opt vHistOpts) {
+	root := vScratch("hist")
 	defer os.RemoveAll(root)
-	ps := vGenParams(r, 1+r.intn(4))
+	nsets := 1 + r.intn(4)
+	if opt.manySets {
+		nsets = 2 + r.intn(3)
+	}
+	ps := vGenParams(r, nsets)
 	def := ps[r.intn(len(ps))].ID
 	h, err := vNewHist(root, ps, def)
 	if err != nil {
@@ -92,14 +107,38 @@ func runHistC01(em *vEmitter, r *vRng, idx int) {
 	if r.intn(4) == 0 {
 		os.Mkdir(h.base+"/.tmp", 0700)
 	}
-	h.begin()
-	nops := 12 + r.intn(29)
 	users := append([]string{}, vUserPool[:2+r.intn(4)]...)
 	if r.intn(3) == 0 {
 		users = append(users, strings.Repeat("n", 249), strings.Repeat("m", 250))
 	}
 	var known [][]byte
 	cur := map[string][]byte{}
+	if opt.plant {
+		for i, u := range users {
+			if len(u) > 100 || r.intn(3) == 0 {
+				continue
+			}
+			p := ps[r.intn(len(ps))]
+			if p.kdfFails() {
+				continue
+			}
+			pw := vPassword(r, known)
+			saltLen := 16
+			if p.Scrypt {
+				saltLen = 32
+			}
+			eol := "\n"
+			tail := vAuxSamples[r.intn(len(vAuxSamples))]
+			if len(tail) == 0 && r.intn(4) == 0 {
+				eol = ""
+			}
+			h.plant(u, i == 0 || r.intn(4) == 0, p, int64(1500000000+r.intn(100000000)), r.bytes(saltLen), pw, eol, tail)
+			known = append(known, pw)
+			cur[u] = pw
+		}
+	}
+	h.begin()
+	nops := 12 + r.intn(29)
 	tsViol := ""
 	pickUser := func() string {
 		if r.intn(12) == 0 {
@@ -169,10 +208,17 @@ func runHistC01(em *vEmitter, r *vRng, idx int) {
 			authAfterMut = true
 		}
 	}
-	c := vCase{Prop: "C01", Kind: "history", Class: fmt.Sprintf("hist/%dsets", len(ps)), Nontrivial: authAfterMut,
+	class := fmt.Sprintf("hist/%dsets", len(ps))
+	if opt.plant {
+		class += "/planted"
+	}
+	c := vCase{Prop: opt.prop, Kind: "history", Class: class, Nontrivial: authAfterMut,
 		Coq: h.term(), Human: map[string]interface{}{"ops": h.human, "yaml": vYaml("<base>", def, ps)}}
 	if tsViol != "" {
 		c.Violation = tsViol
+	}
+	if opt.emitExtra != nil {
+		opt.emitExtra(h, &c)
 	}
 	em.emit(c)
 	for k, v := range h.stats {
@@ -216,6 +262,8 @@ func TestVerifDriver(t *testing.T) {
 		for i := 0; i < n; i++ {
 			runHistC01(em, r, i)
 		}
+	case "C02":
+		runC02(em, r)
 	default:
 		t.Fatalf("unknown property %s", prop)
 	}
